@@ -22,6 +22,7 @@ type Mutant struct {
 	Expect  []string `json:"expect"`  // substrings of obligation names, at least one must fail
 	Control bool     `json:"control"` // negative control: nothing may fail
 	Why     string   `json:"why,omitempty"`
+	Append  string   `json:"append,omitempty"` // text added at the end of the file (a helper the edit needs)
 }
 
 func loadMutants(id string) []Mutant {
@@ -56,7 +57,7 @@ func runSelftest(id, repo string, verbose bool) (int, []string) {
 			bad = append(bad, fmt.Sprintf("%s: pattern occurs %d times in %s (must be exactly once)", m.Name, strings.Count(string(src), m.Old), m.File))
 			continue
 		}
-		mut := strings.Replace(string(src), m.Old, m.New, 1)
+		mut := strings.Replace(string(src), m.Old, m.New, 1) + m.Append
 		res := runProperty(ps, repo, map[string][]byte{file: []byte(mut)}, RunOpts{Timeout: 30 * time.Second, Agree: 1})
 		var failed []string
 		if res.LoadError != "" {
@@ -66,6 +67,11 @@ func runSelftest(id, repo string, verbose bool) (int, []string) {
 		for _, o := range res.Counted {
 			if !o.ok() {
 				failed = append(failed, o.Name)
+			}
+		}
+		for _, o := range res.Covers {
+			if !o.ok() {
+				failed = append(failed, o.Name) // a vacuous function is reported by the check as well
 			}
 		}
 		for _, mm := range res.Missing {
